@@ -203,6 +203,20 @@ static void op_c05_fix(Exec& x, const Json& op, int)
 			}
 			if (ok) { recovered_ok = true; x.probe("c05.recovered_with_preexisting_unverifiable_damage"); }
 		}
+		// the same inode under two names that the content records as two different files (a hard link made after the sync over
+		// a recorded name): fix repairs each name in place and the second repair rewrites the first
+		auto shared_inode_note = [&]() -> std::string {
+			std::string shared;
+			for (auto& g : c.files) {
+				const DiskCfg* dg = x.sb.disk(c.maps[g.map_idx].name);
+				if (!dg || &g == &f) continue;
+				auto itg = after.find(dg->top + "/" + g.sub);
+				if (itg != after.end() && itg->second.type == 'f' && ita != after.end() && itg->second.vino == ita->second.vino && itg->second.vino != 0) shared = dg->top + "/" + g.sub;
+			}
+			if (shared.empty()) return "";
+			for (auto& l : c.links) if (l.hard) { const DiskCfg* dl = x.sb.disk(c.maps[l.map_idx].name); if (dl && (dl->top + "/" + l.sub == shared || dl->top + "/" + l.sub == rel)) return ""; }
+			return " [it shares its inode with " + shared + ", recorded as a different file: fixing one name in place rewrote the other]";
+		};
 		if (reported_rec.count(rel) && !recovered_ok) {
 			// which kind of block carries the wrong bytes
 			std::string kind;
@@ -250,27 +264,16 @@ static void op_c05_fix(Exec& x, const Json& op, int)
 					fprintf(stderr, "  block %zu pos %u state %d hash %s : %s%s\n", bi, f.blocks[bi].pos, f.blocks[bi].state, hex(f.blocks[bi].hash.data(), 4).c_str(), same ? "same" : "DIFFERENT", zero ? " (all zero on disk)" : "");
 				}
 			}
+			if (present && !shared_inode_note().empty()) kind = shared_inode_note();
 			x.violation(P, "recovered-with-wrong-data", cl + ": " + rel + strf(" is reported recovered but %s", present ? "its bytes are not the recorded version" : "it does not exist") + kind);
 		}
 		else if (!correct_hashed && !is_reported && !aborted) {
 			if (!present) {
 				// a missing file that fix did not even try (e.g. unsynced and -e) is not "left under its name"
 				if (touched || !filtered) x.violation(P, "missing-not-reported", cl + ": " + rel + " is still missing and was not reported unrecoverable");
-			} else {
-				// the same inode under two names that the content records as two different files (a hard link made after the
-				// sync over a recorded name): fix repairs each name in place and the second repair rewrites the first
-				std::string shared;
-				for (auto& g : c.files) {
-					const DiskCfg* dg = x.sb.disk(c.maps[g.map_idx].name);
-					if (!dg || &g == &f) continue;
-					auto itg = after.find(dg->top + "/" + g.sub);
-					if (itg != after.end() && itg->second.type == 'f' && ita != after.end() && itg->second.vino == ita->second.vino && itg->second.vino != 0) shared = dg->top + "/" + g.sub;
-				}
-				bool recorded_as_link = false;
-				for (auto& l : c.links) if (l.hard) { const DiskCfg* dl = x.sb.disk(c.maps[l.map_idx].name); if (dl && (dl->top + "/" + l.sub == shared || dl->top + "/" + l.sub == rel)) recorded_as_link = true; }
-				x.violation(P, "wrong-data-not-reported", cl + ": " + rel + " holds other bytes than the recorded version and was not reported unrecoverable"
-					+ (!shared.empty() && !recorded_as_link ? " [it shares its inode with " + shared + ", recorded as a different file: fixing one name in place rewrote the other]" : ""));
-			}
+			} else
+				x.violation(P, "wrong-data-not-reported", cl + ": " + rel + " holds other bytes than the recorded version and was not reported unrecoverable" + shared_inode_note());
+
 		}
 		if (is_reported) {
 			x.probe("c05.unrecoverable_reported");
